@@ -1,7 +1,19 @@
 // Round-trip driver for C01: save a value with an archive under an output configuration, load the
 // result into a FRESH object, compare.  The property is its own oracle: the answer must be OK (equal)
 // or SAVE-EXC (the save failed with an exception); anything else is a violation.
-//   rt <arch> <type#> <cfg> <seed>
+//   rt  <arch> <type#> <cfg> <seed> [root|memb] [features]     value from the seeded generator
+//   doc <arch> <type#> <cfg> <seed> [root|memb] [features]     prints the saved document (hex) only
+//   lsl <arch> <type#> <cfg> <hexdoc> [root|memb]              value = LoadObject(document); answer REJECT:<cat> when the
+//                                                             loader refuses it, else the round trip of the loaded value
+//     features (letters; default none = the "clean" generator, which stays inside what the format can carry and outside
+//     the known findings; each letter lifts one restriction):
+//       e  XML: null optional/unique_ptr/shared_ptr of a string, class or container (XML has no null: F29n)
+//       w  XML: empty strings (an empty string and null are the same XML document: F53)
+//       c  XML: CR in text (written raw, normalised to LF by every XML parser: F52)
+//       n  text formats: NaN / Infinity (the save must then throw)
+//       k  XML: map keys that are not XML names (integer keys, arbitrary text)
+//       d  JSON streams in UTF-16/32 without BOM whose root is a scalar (RapidJSON detects the encoding from the first four
+//          bytes assuming an object/array root, RFC 4627: a one-digit number or a string starting with non-ASCII fails; F50)
 //     arch: mp json xml csv        cfg: <m|s><enc><bom><pretty>  e.g. m000, s211
 //       enc: 0 utf8, 1 utf16le, 2 utf16be, 3 utf32le, 4 utf32be (stream only; ignored for memory)
 //       bom: 0/1 (stream only)    pretty: 0 none, 1 spaces x2, 2 tab x1, 3 spaces x7   (json/xml only)
@@ -48,7 +60,11 @@ REGISTER_ENUM(Color, { { Color::Red, "Red" }, { Color::Green, "Green" }, { Color
 
 // ------------------------------------------------------------------ value generators
 static bool g_xml = false;      // restrict text to what XML 1.0 character data can carry
-static bool g_finite = false;   // JSON: finite floats only
+static bool g_finite = false;   // text formats: finite floats only (feature n lifts it)
+static bool g_nonempty = false; // XML clean mode: no null optionals/pointers of non-arithmetic types (feature e lifts it)
+static bool g_xmlvis = false;   // XML clean mode: every string is non-empty (feature w lifts it)
+static bool g_nocr = false;     // XML clean mode: no CR in text (feature c lifts it)
+static bool g_names = false;    // XML clean mode: string map keys are XML names (feature k lifts it)
 
 template <class T> static T pick(Rng& r, std::initializer_list<T> l) { return *(l.begin() + r() % l.size()); }
 
@@ -66,7 +82,8 @@ static char32_t gen_cp(Rng& r) {
 		}
 		if (c >= 0xD800 && c < 0xE000) continue;
 		if (c == 0) continue;                                   // NUL cannot be carried by the text formats' C APIs
-		if (g_xml && (c < 0x20 && c != 0x09 && c != 0x0A)) continue;   // XML 1.0 Char; CR is normalised by XML itself
+		if (g_xml && (c < 0x20 && c != 0x09 && c != 0x0A && c != 0x0D)) continue;   // XML 1.0 Char
+		if (g_nocr && c == 0x0D) continue;
 		if (g_xml && (c == 0xFFFE || c == 0xFFFF)) continue;
 		return c;
 	}
@@ -75,10 +92,8 @@ static std::u32string gen_u32(Rng& r) {
 	size_t n = pick<size_t>(r, { 0, 1, 1, 2, 3, 5, 8, 31, 32, 33, 100, 300 });
 	if (n > 40 && r() % 4) n = r() % 12;
 	std::u32string s; for (size_t i = 0; i < n; ++i) s.push_back(gen_cp(r));
-	if (g_xml) {   // XML parsers drop whitespace-only text and the library reads child-less elements specially: keep a visible char
-		bool vis = false; for (auto c : s) if (c > 0x20) vis = true;
-		if (!vis) s.push_back(U'x');
-	}
+	if (g_xmlvis && s.empty()) s.push_back(U'x');      // XML: an empty string is the same document as null
+
 	return s;
 }
 template <class S> static S gen_str(Rng& r) { return Convert::To<S>(gen_u32(r)); }
@@ -94,6 +109,7 @@ template <class T> static T gen_int(Rng& r) {
 	}
 }
 static double gen_f64(Rng& r) {
+	if (!g_finite && r() % 4 == 0) return pick<double>(r, { std::numeric_limits<double>::quiet_NaN(), std::numeric_limits<double>::infinity(), -std::numeric_limits<double>::infinity() });
 	for (;;) {
 		double d;
 		switch (r() % 5) {
@@ -101,12 +117,12 @@ static double gen_f64(Rng& r) {
 		case 1: d = static_cast<double>(static_cast<int64_t>(r() % 2000001) - 1000000) / 1000.0; break;
 		default: { uint64_t x = r(); std::memcpy(&d, &x, 8); }
 		}
-		if (std::isnan(d)) continue;                      // NaN != NaN: compared separately by bit pattern nowhere; skip
 		if (g_finite && !std::isfinite(d)) continue;
 		return d;
 	}
 }
 static float gen_f32(Rng& r) {
+	if (!g_finite && r() % 4 == 0) return pick<float>(r, { std::numeric_limits<float>::quiet_NaN(), std::numeric_limits<float>::infinity(), -std::numeric_limits<float>::infinity() });
 	for (;;) {
 		float f;
 		switch (r() % 4) {
@@ -114,12 +130,12 @@ static float gen_f32(Rng& r) {
 		case 1: f = static_cast<float>(static_cast<int>(r() % 20001) - 10000) / 8.0f; break;
 		default: { uint32_t x = static_cast<uint32_t>(r()); std::memcpy(&f, &x, 4); }
 		}
-		if (std::isnan(f)) continue;
 		if (g_finite && !std::isfinite(f)) continue;
 		return f;
 	}
 }
 static size_t gen_len(Rng& r) { return pick<size_t>(r, { 0, 0, 1, 1, 2, 3, 5, 15, 16, 17 }); }
+static std::string gen_name(Rng& r) { std::string s(1, static_cast<char>(pick<int>(r, { 'a', 'Z', '_', 'k' }))); for (size_t n = r() % 6; n--;) s.push_back(static_cast<char>(pick<int>(r, { 'a', 'b', 'Y', '0', '9', '_', '-', '.' }))); return s; }
 
 template <class T, class = void> struct Gen;
 template <class T> static T gen(Rng& r) { return Gen<T>::make(r); }
@@ -140,26 +156,30 @@ template <class T> struct Gen<std::forward_list<T>> { static std::forward_list<T
 template <class T, size_t N> struct Gen<std::array<T, N>> { static std::array<T, N> make(Rng& r) { std::array<T, N> v; for (auto& x : v) x = gen<T>(r); return v; } };
 template <class T> struct Gen<std::set<T>> { static std::set<T> make(Rng& r) { std::set<T> v; for (size_t n = gen_len(r); n--;) v.insert(gen<T>(r)); return v; } };
 template <class T> struct Gen<std::unordered_set<T>> { static std::unordered_set<T> make(Rng& r) { std::unordered_set<T> v; for (size_t n = gen_len(r); n--;) v.insert(gen<T>(r)); return v; } };
-template <class K, class V> struct Gen<std::map<K, V>> { static std::map<K, V> make(Rng& r) { std::map<K, V> v; for (size_t n = gen_len(r); n--;) v.emplace(gen<K>(r), gen<V>(r)); return v; } };
-template <class K, class V> struct Gen<std::unordered_map<K, V>> { static std::unordered_map<K, V> make(Rng& r) { std::unordered_map<K, V> v; for (size_t n = gen_len(r); n--;) v.emplace(gen<K>(r), gen<V>(r)); return v; } };
+template <class K> static K gen_key(Rng& r) { if constexpr (std::is_same_v<K, std::string>) { if (g_names) return gen_name(r); } return gen<K>(r); }
+template <class K, class V> struct Gen<std::map<K, V>> { static std::map<K, V> make(Rng& r) { std::map<K, V> v; for (size_t n = gen_len(r); n--;) v.emplace(gen_key<K>(r), gen<V>(r)); return v; } };
+template <class K, class V> struct Gen<std::unordered_map<K, V>> { static std::unordered_map<K, V> make(Rng& r) { std::unordered_map<K, V> v; for (size_t n = gen_len(r); n--;) v.emplace(gen_key<K>(r), gen<V>(r)); return v; } };
 template <class K, class V> struct Gen<std::multimap<K, V>> { static std::multimap<K, V> make(Rng& r) { std::multimap<K, V> v; for (size_t n = gen_len(r); n--;) { auto k = gen<K>(r); v.emplace(k, gen<V>(r)); if (r() % 3 == 0) v.emplace(k, gen<V>(r)); } return v; } };
-template <class T> struct Gen<std::optional<T>> { static std::optional<T> make(Rng& r) { if (r() % 3 == 0) return std::nullopt; return gen<T>(r); } };
+template <class T> struct Gen<std::optional<T>> { static std::optional<T> make(Rng& r) { if (r() % 3 == 0 && !(g_nonempty && !std::is_arithmetic_v<T>)) return std::nullopt; return gen<T>(r); } };
 template <class A, class B> struct Gen<std::pair<A, B>> { static std::pair<A, B> make(Rng& r) { auto a = gen<A>(r); return { a, gen<B>(r) }; } };
 template <class... A> struct Gen<std::tuple<A...>> { static std::tuple<A...> make(Rng& r) { return std::tuple<A...>{ gen<A>(r)... }; } };
 template <size_t N> struct Gen<std::bitset<N>> { static std::bitset<N> make(Rng& r) { return std::bitset<N>(r()); } };
 template <class R, class P> struct Gen<std::chrono::duration<R, P>> { static std::chrono::duration<R, P> make(Rng& r) {
-	R c = static_cast<R>(static_cast<int64_t>(r() % 4000000001ULL) - 2000000000LL); if (r() % 5 == 0) c = static_cast<R>(pick<int>(r, { 0, 1, -1, 59, 60, 3600, 86399, 86400 })); return std::chrono::duration<R, P>(c); } };
+	R c = static_cast<R>(static_cast<int64_t>(r() % 4000000001ULL) - 2000000000LL); if (r() % 5 == 0) c = static_cast<R>(pick<int>(r, { 0, 1, -1, 59, 60, 3600, 86399, 86400 }));
+	return std::chrono::duration<R, P>(c); } };
 template <class C, class D> struct Gen<std::chrono::time_point<C, D>> { static std::chrono::time_point<C, D> make(Rng& r) { return std::chrono::time_point<C, D>(gen<D>(r)); } };
 
+static bool same(const float& a, const float& b);
+static bool same(const double& a, const double& b);
 struct Inner {
 	int a = 0; std::string s; double d = 0;
-	bool operator==(const Inner& o) const { return a == o.a && s == o.s && std::memcmp(&d, &o.d, 8) == 0; }
+	bool operator==(const Inner& o) const { return a == o.a && s == o.s && same(d, o.d); }
 	bool operator<(const Inner& o) const { return std::tie(a, s) < std::tie(o.a, o.s); }
 	template <class T> void Serialize(T& ar) { ar << KeyValue("a", a) << KeyValue("s", s) << KeyValue("d", d); }
 };
 template <> struct Gen<Inner> { static Inner make(Rng& r) { Inner i; i.a = gen<int>(r); i.s = gen<std::string>(r); i.d = gen<double>(r); return i; } };
-template <class T> struct Gen<std::unique_ptr<T>> { static std::unique_ptr<T> make(Rng& r) { if (r() % 3 == 0) return nullptr; return std::make_unique<T>(gen<T>(r)); } };
-template <class T> struct Gen<std::shared_ptr<T>> { static std::shared_ptr<T> make(Rng& r) { if (r() % 3 == 0) return nullptr; return std::make_shared<T>(gen<T>(r)); } };
+template <class T> struct Gen<std::unique_ptr<T>> { static std::unique_ptr<T> make(Rng& r) { if (r() % 3 == 0 && !g_nonempty) return nullptr; return std::make_unique<T>(gen<T>(r)); } };
+template <class T> struct Gen<std::shared_ptr<T>> { static std::shared_ptr<T> make(Rng& r) { if (r() % 3 == 0 && !g_nonempty) return nullptr; return std::make_shared<T>(gen<T>(r)); } };
 
 struct Base { int baseField = 0; std::u16string baseName;
 	template <class T> void Serialize(T& ar) { ar << KeyValue("baseField", baseField) << KeyValue("baseName", baseName); } };
@@ -169,7 +189,7 @@ struct Outer : Base {
 	std::unique_ptr<Inner> ptr; std::tuple<int, std::string> tup; std::array<int, 3> arr{}; std::pair<int, std::string> pr;
 	std::chrono::system_clock::time_point tp; std::chrono::seconds dur{};
 	bool operator==(const Outer& o) const {
-		return baseField == o.baseField && baseName == o.baseName && b == o.b && i8 == o.i8 && u64 == o.u64 && std::memcmp(&f, &o.f, 4) == 0 && str == o.str && wstr == o.wstr
+		return baseField == o.baseField && baseName == o.baseName && b == o.b && i8 == o.i8 && u64 == o.u64 && same(f, o.f) && str == o.str && wstr == o.wstr
 			&& color == o.color && vec == o.vec && mp == o.mp && inner == o.inner && inners == o.inners && opt == o.opt && optS == o.optS
 			&& ((!ptr && !o.ptr) || (ptr && o.ptr && *ptr == *o.ptr)) && tup == o.tup && arr == o.arr && pr == o.pr && tp == o.tp && dur == o.dur; }
 	template <class T> void Serialize(T& ar) {
@@ -190,7 +210,7 @@ template <> struct Gen<Outer> { static Outer make(Rng& r) { Outer o; o.baseField
 // a row of a CSV table
 struct Row {
 	int id = 0; std::string name; double score = 0; bool flag = false; std::u16string wname; int64_t big = 0;
-	bool operator==(const Row& o) const { return id == o.id && name == o.name && std::memcmp(&score, &o.score, 8) == 0 && flag == o.flag && wname == o.wname && big == o.big; }
+	bool operator==(const Row& o) const { return id == o.id && name == o.name && same(score, o.score) && flag == o.flag && wname == o.wname && big == o.big; }
 	template <class T> void Serialize(T& ar) { ar << KeyValue("id", id) << KeyValue("name", name) << KeyValue("score", score) << KeyValue("flag", flag) << KeyValue("wname", wname) << KeyValue("big", big); }
 };
 template <> struct Gen<Row> { static Row make(Rng& r) { Row x; x.id = gen<int>(r); x.name = gen<std::string>(r); x.score = gen<double>(r); x.flag = gen<bool>(r); x.wname = gen<std::u16string>(r); x.big = gen<int64_t>(r); return x; } };
@@ -204,16 +224,21 @@ template <class T> struct Wrap { T v{};
 
 // ------------------------------------------------------------------ equality
 template <class T> static bool same(const T& a, const T& b) { return a == b; }
-static bool same(const float& a, const float& b) { return std::memcmp(&a, &b, 4) == 0; }
-static bool same(const double& a, const double& b) { return std::memcmp(&a, &b, 8) == 0; }
+static bool g_bitexact = true;   // binary format: NaN payloads must survive; text formats: any NaN equals any NaN
+static bool same(const float& a, const float& b) { return std::memcmp(&a, &b, 4) == 0 || (!g_bitexact && std::isnan(a) && std::isnan(b)); }
+static bool same(const double& a, const double& b) { return std::memcmp(&a, &b, 8) == 0 || (!g_bitexact && std::isnan(a) && std::isnan(b)); }
 template <class T> static bool same(const std::unique_ptr<T>& a, const std::unique_ptr<T>& b) { return (!a && !b) || (a && b && same(*a, *b)); }
 template <class T> static bool same(const std::shared_ptr<T>& a, const std::shared_ptr<T>& b) { return (!a && !b) || (a && b && same(*a, *b)); }
 template <class T> static bool same(const std::vector<T>& a, const std::vector<T>& b) { if (a.size() != b.size()) return false; for (size_t i = 0; i < a.size(); ++i) if (!same(a[i], b[i])) return false; return true; }
 template <class T> static bool same(const std::deque<T>& a, const std::deque<T>& b) { if (a.size() != b.size()) return false; for (size_t i = 0; i < a.size(); ++i) if (!same(a[i], b[i])) return false; return true; }
+template <class... A, size_t... I> static bool same_tuple(const std::tuple<A...>& a, const std::tuple<A...>& b, std::index_sequence<I...>) { return (same(std::get<I>(a), std::get<I>(b)) && ...); }
+template <class... A> static bool same(const std::tuple<A...>& a, const std::tuple<A...>& b) { return same_tuple(a, b, std::index_sequence_for<A...>{}); }
 template <class K, class V> static bool same(const std::unordered_map<K, V>& a, const std::unordered_map<K, V>& b) { if (a.size() != b.size()) return false; for (auto& kv : a) { auto it = b.find(kv.first); if (it == b.end() || !same(kv.second, it->second)) return false; } return true; }
 
 // ------------------------------------------------------------------ round trip
 struct Cfg { bool stream; int enc; bool bom; int pretty; };
+static const std::string* g_src = nullptr;    // lsl: the document the value is loaded from
+static bool g_doc_only = false;               // doc: print the saved document instead of loading it back
 static std::string g_stage;
 static std::string g_doc;       // the saved document (kept for diagnosis)
 
@@ -243,26 +268,41 @@ static std::string roundtrip(const T& value, const Cfg& c, const SerializationOp
 		std::stringstream ss;
 		SaveObject<TArchive>(value, ss, o);
 		g_stage = "LOAD"; g_doc = ss.str();
+		if (g_doc_only) return "DOC";
 		ss.seekg(0);
 		LoadObject<TArchive>(loaded, ss, o);
 	} else {
 		typename TArchive::preferred_output_format out;
 		SaveObject<TArchive>(value, out, o);
 		g_stage = "LOAD"; g_doc.assign(reinterpret_cast<const char*>(out.data()), out.size() * sizeof(out[0]));
+		if (g_doc_only) return "DOC";
 		LoadObject<TArchive>(loaded, out, o);
 	}
 	return same(value, loaded) ? "OK" : "DIFF";
 }
 
+template <class TArchive, class T>
+static bool load_source(T& v, const Cfg& c, const SerializationOptions& o) {
+	g_stage = "REJECT";
+	if (c.stream) { std::stringstream ss(*g_src); LoadObject<TArchive>(v, ss, o); }
+	else {
+		typename TArchive::preferred_output_format in;
+		using Ch = typename TArchive::preferred_output_format::value_type;
+		in.assign(reinterpret_cast<const Ch*>(g_src->data()), g_src->size() / sizeof(Ch));
+		LoadObject<TArchive>(v, in, o);
+	}
+	return true;
+}
+
 template <class TArchive, class T, bool Root>
 static std::string rt_type(Rng& r, const Cfg& c) {
 	auto o = make_opts(c);
-	if constexpr (Root) { T v = gen<T>(r); return roundtrip<TArchive>(v, c, o); }
-	else { Wrap<T> w; w.v = gen<T>(r); Wrap<T> l;
+	if constexpr (Root) { T v{}; if (g_src) load_source<TArchive>(v, c, o); else v = gen<T>(r); return roundtrip<TArchive>(v, c, o); }
+	else { Wrap<T> w; if (g_src) load_source<TArchive>(w, c, o); else w.v = gen<T>(r); Wrap<T> l;
 		struct Eq { static bool eq(const Wrap<T>& a, const Wrap<T>& b) { return same(a.v, b.v); } };
 		g_stage = "SAVE";
-		if (c.stream) { std::stringstream ss; SaveObject<TArchive>(w, ss, o); g_stage = "LOAD"; g_doc = ss.str(); ss.seekg(0); LoadObject<TArchive>(l, ss, o); }
-		else { typename TArchive::preferred_output_format out; SaveObject<TArchive>(w, out, o); g_stage = "LOAD"; g_doc.assign(reinterpret_cast<const char*>(out.data()), out.size() * sizeof(out[0])); LoadObject<TArchive>(l, out, o); }
+		if (c.stream) { std::stringstream ss; SaveObject<TArchive>(w, ss, o); g_stage = "LOAD"; g_doc = ss.str(); if (g_doc_only) return "DOC"; ss.seekg(0); LoadObject<TArchive>(l, ss, o); }
+		else { typename TArchive::preferred_output_format out; SaveObject<TArchive>(w, out, o); g_stage = "LOAD"; g_doc.assign(reinterpret_cast<const char*>(out.data()), out.size() * sizeof(out[0])); if (g_doc_only) return "DOC"; LoadObject<TArchive>(l, out, o); }
 		return Eq::eq(w, l) ? "OK" : "DIFF"; }
 }
 
@@ -299,9 +339,9 @@ static std::string rt_csv(int ty, Rng& r, const Cfg& c, int sepIdx) {
 	static const char seps[] = { ',', ';', '\t', ' ', '|' };
 	auto o = make_opts(c, seps[sepIdx % 5]);
 	switch (ty) {
-	case 0: { auto v = gen<std::vector<Row>>(r); if (v.empty()) v.push_back(gen<Row>(r)); return roundtrip<CsvArchive>(v, c, o); }
-	case 1: { auto v = gen<std::list<Row1>>(r); if (v.empty()) v.push_back(gen<Row1>(r)); return roundtrip<CsvArchive>(v, c, o); }
-	case 2: { auto v = gen<std::deque<Row>>(r); if (v.empty()) v.push_back(gen<Row>(r)); return roundtrip<CsvArchive>(v, c, o); }
+	case 0: { std::vector<Row> v; if (g_src) load_source<CsvArchive>(v, c, o); else { v = gen<std::vector<Row>>(r); if (v.empty()) v.push_back(gen<Row>(r)); } return roundtrip<CsvArchive>(v, c, o); }
+	case 1: { std::list<Row1> v; if (g_src) load_source<CsvArchive>(v, c, o); else { v = gen<std::list<Row1>>(r); if (v.empty()) v.push_back(gen<Row1>(r)); } return roundtrip<CsvArchive>(v, c, o); }
+	case 2: { std::deque<Row> v; if (g_src) load_source<CsvArchive>(v, c, o); else { v = gen<std::deque<Row>>(r); if (v.empty()) v.push_back(gen<Row>(r)); } return roundtrip<CsvArchive>(v, c, o); }
 	case 3: { std::vector<Row> v; return roundtrip<CsvArchive>(v, c, o); }     // empty table (finding F22)
 	default: return "UNSUPPORTED";
 	}
@@ -320,16 +360,26 @@ int main() {
 			const int ty = std::stoi(t.at(2));
 			const std::string& cf = t.at(3);
 			Cfg c{ cf.at(0) == 's', cf.at(1) - '0', cf.at(2) == '1', cf.at(3) - '0' };
-			Rng r(std::stoull(t.at(4)) * 2654435761ULL + static_cast<uint64_t>(ty));
-			g_xml = (a == "xml"); g_finite = (a == "json" || a == "xml" || a == "csv");
+			const bool lsl = t.at(0) == "lsl";
+			g_doc_only = t.at(0) == "doc";
+			std::string src; if (lsl) { src = vh::parse_hex(t.at(4)); g_src = &src; } else g_src = nullptr;
+			Rng r((lsl ? 0 : std::stoull(t.at(4))) * 2654435761ULL + static_cast<uint64_t>(ty));
+			const std::string feat = t.size() > 6 ? t.at(6) : "";
+			auto has = [&](char f) { return feat.find(f) != std::string::npos; };
+			g_xml = (a == "xml"); g_finite = (a == "json" || a == "xml" || a == "csv") && !has('n');
+			g_nonempty = g_xml && !has('e'); g_xmlvis = g_xml && !has('w'); g_nocr = g_xml && !has('c'); g_names = g_xml && !has('k');
+			g_bitexact = a == "mp";
+			const bool bomlessScalarRoot = a == "json" && c.stream && c.enc != 0 && !c.bom && t.size() > 5 && t.at(5) == "root" && ty <= 14 && !has('d');
 			const bool root = t.size() > 5 && t.at(5) == "root";
 			std::string res;
 			if (a == "mp") res = root ? rt_catalogue<MsgPackArchive, true>(ty, r, c) : rt_catalogue<MsgPackArchive, false>(ty, r, c);
+			else if (bomlessScalarRoot) res = "UNSUPPORTED";
 			else if (a == "json") res = root ? rt_catalogue<JsonArchive, true>(ty, r, c) : rt_catalogue<JsonArchive, false>(ty, r, c);
-			else if (a == "xml") res = rt_catalogue<XmlArchive, false>(ty, r, c);
+			else if (a == "xml") res = (ty == 25 && g_names) ? "UNSUPPORTED" : rt_catalogue<XmlArchive, false>(ty, r, c);
 			else if (a == "csv") res = rt_csv(ty, r, c, c.pretty);
 			else res = "UNSUPPORTED";
-			if (res != "OK" && res != "UNSUPPORTED" && std::getenv("VERIF_RT_DEBUG")) res += " doc=" + vh::fmt_hex(g_doc.substr(0, 400));
+			if (res == "DOC") res = "DOC " + vh::fmt_hex(g_doc);
+			else if (res != "OK" && res != "UNSUPPORTED" && std::getenv("VERIF_RT_DEBUG")) res += " doc=" + vh::fmt_hex(g_doc.substr(0, 400));
 			std::cout << res << std::endl;
 		} catch (...) {
 			std::string res = g_stage + "-EXC:" + cat_of_current_exception();
